@@ -177,16 +177,23 @@ func init() {
 				}
 				// (b') the same under lax host parsing (what the GoogleSafeBrowsing and Semantic profiles use): for a host the default
 				// parser does not reject on a forbidden code point, lax parsing must recognise and canonicalise IPv4 the same way
+				// (b'') and under validation-error reporting, alone and with lax parsing: reporting records errors, it never changes a result
 				if want, ok, decided := expectSpecialHost(d, h); decided && !strings.ContainsAny(h, "/\\?#@:[] \t\n\r") &&
 					!strings.ContainsAny(asciiLower(pctDecode(h)), forbiddenDomain) && (i < total/8 || i >= total) {
-					lax := cfgFromDesc("lax")
-					in := "http://" + h + "/"
-					io := c.cmpParse(d, lax, nil, in, allButVerrs, true, "ipv4-api:lax", i)
-					cs3 := Case{Kind: "parse", Cfg: lax.Desc, Input: in, Family: "ipv4-api:lax", Index: i}
-					if ok != (io.Kind == "U") {
-						c.Report(Finding{Class: "violation", What: fmt.Sprintf("under lax host parsing, host %q of a special URL: implementation %s, the standard %s", h, io.String(), map[bool]string{true: "accepts it as " + want, false: "rejects it"}[ok]), Case: cs3})
-					} else if ok && io.Fields[fHostname] != want {
-						c.Report(Finding{Class: "violation", What: fmt.Sprintf("under lax host parsing, host %q of a special URL serializes as %q, the standard's result is %q", h, io.Fields[fHostname], want), Case: cs3})
+					for _, cd := range []string{"lax", "report", "lax+report"} {
+						if cd != "lax" && i < total && i%2 != 0 {
+							continue
+						}
+						lax := cfgFromDesc(cd)
+						in := "http://" + h + "/"
+						fam := "ipv4-api:" + cd
+						io := c.cmpParse(d, lax, nil, in, allButVerrs, true, fam, i)
+						cs3 := Case{Kind: "parse", Cfg: lax.Desc, Input: in, Family: fam, Index: i}
+						if ok != (io.Kind == "U") {
+							c.Report(Finding{Class: "violation", What: fmt.Sprintf("under options %s, host %q of a special URL: implementation %s, the standard %s", cd, h, io.String(), map[bool]string{true: "accepts it as " + want, false: "rejects it"}[ok]), Case: cs3})
+						} else if ok && io.Fields[fHostname] != want {
+							c.Report(Finding{Class: "violation", What: fmt.Sprintf("under options %s, host %q of a special URL serializes as %q, the standard's result is %q", cd, h, io.Fields[fHostname], want), Case: cs3})
+						}
 					}
 				}
 				if !strings.ContainsAny(h, "\x00/\\?#@:[] \t\n\r<>^|") && isASCII(h) && h != "" {
